@@ -305,7 +305,75 @@ def _field_writes(g, n):
     return out
 
 
+def check_read_commit(rep, facts):
+    """R9.7: a byte count obtained from the transport is handed to the stream parser before the poll function can return or read
+    again.  A poll function keeps no locals across a Pending: bytes that were read into the parser's buffer but not yet
+    committed with parse(n) are overwritten by the next read -- a whole transport segment of the stream disappears."""
+    total = 0
+    for label, entry in ENTRIES[:2]:
+        body = facts.body(entry)
+        g = ieg.IEG(facts, body, inline_filter=no_util)
+        ev = E.Events(g)
+        reads = {}
+        for n in g.all_nodes():
+            e = ev.at(n)
+            if e is not None and e[0] == 'READ':
+                reads[(n.frame.id, n.bb)] = n
+
+        def effect(n, m, lab):
+            gens, kills = set(), set()
+            e = ev.at(n)
+            if e is not None and e[0] == 'PARSE' and e[1] == 'str' and n.term["k"] == "call" and len(n.term["args"]) > 1:
+                a = g.resolve(n.frame, n.term["args"][1], (n.bb, -1))
+                for (fid, bb) in reads:
+                    if common.derives_from_site(a, fid, bb):
+                        gens.add(('CM', fid, bb))
+            if n.term["k"] == "switch":
+                de = ev.switch_expr(n)
+                if lab == ('case', 0):
+                    for (pe, cn) in ev.poll_switches(n):
+                        if (cn.frame.id, cn.bb) in reads and pe is not None and pe[0] == 'READ':
+                            kills.add(('CM', cn.frame.id, cn.bb))      # Poll::Ready: a count now exists
+                elif de is not None and de[0] == 'discr':
+                    # Pending / Err / Break edges: no count exists on them
+                    for (fid, bb) in reads:
+                        if common.derives_from_site(de[1], fid, bb):
+                            gens.add(('CM', fid, bb))
+                zt = common.zero_test(de, n.term.get("dty")) if de is not None else None
+                if zt is not None:
+                    v, c0, other = zt
+                    for (fid, bb) in reads:
+                        if common.derives_from_site(v, fid, bb) and ev.edge_value(lab, c0, other) == 'zero':
+                            gens.add(('CM', fid, bb))                  # nothing was read: nothing to commit
+            return gens, kills
+
+        init = frozenset(('CM', fid, bb) for (fid, bb) in reads)
+        ins = common.must_dataflow(g, init, effect)
+        for (fid, bb), rn in sorted(reads.items()):
+            total += 1
+            fact = ('CM', fid, bb)
+            bad = None
+            for n in g.all_nodes():
+                if n.key not in ins or fact in ins[n.key]:
+                    continue
+                if n.term["k"] == "return" and n.frame is g.root:
+                    bad = ("the poll function can return", n)
+                    break
+                e = ev.at(n)
+                if e is not None and e[0] == 'READ':
+                    bad = ("the transport is read again", n)
+                    break
+            key = "%s/%s/read-committed" % (label, common.fn_of(rn))
+            if bad:
+                rep.violation("R9.7", key, "%s while a byte count returned by this read has not been handed to Parser::parse: the bytes already in the "
+                              "parser's input buffer are overwritten by the next read" % bad[0], rn.loc())
+            else:
+                rep.ok("R9.7", key, "every path from Ready(Ok(n)) reaches parse(n, ..) before the function returns or reads again (n == 0 and error edges excepted)", rn.loc())
+    rep.floor("R9.7", "transport reads in the poll-style read interfaces", total, 2)
+
+
 def run(rep, facts):
+    rep.rule("R9.7", "in poll_read / poll_fill_buf a byte count returned by the transport is committed with Parser::parse(n, ..) before the function can return or read again")
     rep.rule("R9.1", "delegation: poll_read = poll_input(Some(buf)), poll_fill_buf = poll_input(None) then stream_buffer(), consume = consume_stream; the caller's buffer is written only by the stream parser and by the copy from stream_buffer()")
     rep.rule("R9.2", "bytes copied out of stream_buffer() are consumed by exactly the copied amount; poll_fill_buf never consumes")
     rep.rule("R9.3", "after a parse, nothing that can return Pending/Err (transport read, reply flush, lock) runs unless the parse reported neither data nor end-of-stream; the success count is the parse's / the copy's count")
@@ -318,6 +386,7 @@ def run(rep, facts):
     check.guard(rep, "R9.3", check_returns, facts)
     check.guard(rep, "R9.1", check_delegation, facts)
     check.guard(rep, "R9.4", check_writeable, facts)
+    check.guard(rep, "R9.7", check_read_commit, facts)
     rep.floor("R9.3", "operations that can exit early inside poll_input", counters["exits"], 6)
     rep.floor("R9.2", "consume_stream sites in poll_input", counters["consumes"], 1)
 
